@@ -87,15 +87,16 @@ type Config struct {
 // Sys is one WAL instance, on a simulated disk (Disk != nil) or on the real
 // filesystem with the real bbolt metadata store (Real).
 type Sys struct {
-	Disk *simdisk.Disk
-	Dir  string
-	Real bool
-	Cfg  Config
-	W    *wal.WAL
-	Meta *SimMeta
-	Rec  *RecMeta
-	MC   metrics.Collector
-	Cnt  *Expect // if set, API calls made by the harness are tallied here (metrics oracle)
+	Disk  *simdisk.Disk
+	Dir   string
+	Real  bool
+	Cfg   Config
+	W     *wal.WAL
+	Meta  *SimMeta
+	Rec   *RecMeta
+	MC    metrics.Collector
+	Codec wal.Codec // optional custom codec
+	Cnt   *Expect   // if set, API calls made by the harness are tallied here (metrics oracle)
 }
 
 // RecMeta wraps the production BoltMetaDB and remembers the last state that
@@ -202,9 +203,12 @@ func (s *Sys) Open() error {
 	}
 	var w *wal.WAL
 	var err error
-	if s.MC != nil {
+	switch {
+	case s.Codec != nil:
+		w, err = wal.Open(s.Dir, wal.WithMetaStore(ms), wal.WithSegmentSize(s.Cfg.SegSize), wal.WithLogger(nullLogger), wal.WithCodec(s.Codec))
+	case s.MC != nil:
 		w, err = wal.Open(s.Dir, wal.WithMetaStore(ms), wal.WithSegmentSize(s.Cfg.SegSize), wal.WithLogger(nullLogger), wal.WithMetricsCollector(s.MC))
-	} else {
+	default:
 		w, err = wal.Open(s.Dir, wal.WithMetaStore(ms), wal.WithSegmentSize(s.Cfg.SegSize), wal.WithLogger(nullLogger))
 	}
 	if err != nil {
